@@ -334,7 +334,7 @@ class Check:
         if ngap and ngap * 10 > max(agg["paths"], 1):
             top = sorted(gaps.items(), key=lambda kv: -kv[1])[:2]
             out_lines.append("INCONCLUSIVE: %d of %d paths could not be executed/decided by the engine (%s); nothing is claimed for them"
-                             % (ngap, agg["paths"], "; ".join("%s x%d" % (k[:80], v) for k, v in top)))
+                             % (ngap, agg["paths"], "; ".join("%s x%d" % (k[:80], v) for k, v in top) or "solver answered unknown / timed out x%d" % ends.get("unknown", 0)))
         if agg["ok_paths"] == 0:
             # vacuity guard: nothing reached the end of any harness -> the run proves nothing
             out_lines.append("BROKEN: no path completed (vacuous run)")
